@@ -167,7 +167,7 @@ func (g *Gen) fill(k Kind, depth int, hidden bool) *Node {
 				a = Arg{Kind: ArgUnsafeStr, S: g.SG.Str(false)}
 			case c < 5:
 				a = Arg{Kind: ArgSafeStr, S: g.SG.Str(true)}
-			case c < 7 || g.Cfg.NoErrArgs || !g.enabled[WSecondary] || g.budget < 1 || k == WSafeDetails:
+			case c < 7 || g.Cfg.NoErrArgs || !g.enabled[WSecondary] || g.budget < 1 || k == WSafeDetails || k == WMessagef:
 				a = Arg{Kind: ArgInt, N: g.T.Draw(1000)}
 			default:
 				a = Arg{Kind: ArgErr, Hid: len(n.Hid)}
@@ -178,12 +178,19 @@ func (g *Gen) fill(k Kind, depth int, hidden bool) *Node {
 	}
 	if ki.Tags {
 		nt := 1 + g.T.Draw(3)
+		usedKeys := map[string]bool{}
 		for i := 0; i < nt; i++ {
 			// logtags treats one-letter keys specially ("k" + value, no '=').
 			key := g.SG.StrA(true, Plain)
 			if g.T.Bool(1, 5) {
-				key = Str{V: string(rune('a' + g.T.Draw(26))), Safe: true}
+				// same key twice would overwrite the earlier value
+				c := g.T.Draw(26)
+				for usedKeys[string(rune('a'+c))] {
+					c = (c + 1) % 26
+				}
+				key = Str{V: string(rune('a' + c)), Safe: true}
 			}
+			usedKeys[key.V] = true
 			var v Arg
 			switch g.T.Draw(4) {
 			case 0:
